@@ -31,6 +31,7 @@ class MGRecorder:
         self.pending = None     # smoothing call waiting for its log line
         self.nsmooth = 0
         self.first_term = True
+        self.ncalls = 4
         self._saved = {}
 
     # -- install / remove
@@ -152,6 +153,24 @@ class MGRecorder:
 
             self._patch(core, "amat_x", amat_x)
             self._patch(core, "restrict", restrict)
+
+            # Stand-in for the SciPy solvers: calls the preconditioner (a
+            # complete multigrid() run) a fixed number of times, so that the
+            # hand-over of sc/lr positions between preconditioner calls is
+            # exercised deterministically.
+            import scipy.sparse.linalg as ssl
+
+            def fake(A=None, b=None, x0=None, M=None, callback=None, **kw):
+                x = np.array(x0, copy=True)
+                for _ in range(rec.ncalls):
+                    if M is not None:
+                        M.matvec(b)
+                    if callback is not None:
+                        callback(x)
+                return x, 1
+
+            for name in ("bicgstab", "cgs", "gcrotmk"):
+                self._patch(ssl, name, fake)
         return self
 
     def flush(self):
